@@ -78,6 +78,8 @@ pub struct WorldCfg {
 	/// chance that a by-reference member is an empty (zero-sized) owned collection
 	/// located at the address of some leaf
 	pub p_zst_member: u8,
+	/// chance that a by-reference collection is built as K::try_new(&list)
+	pub p_try_new_ref: u8,
 	/// chance that a by-reference member list gets a lock stored by value
 	pub p_own_member: u8,
 	pub max_members: usize,
@@ -106,6 +108,7 @@ impl Default for WorldCfg {
 			p_pois_coll: 30,
 			p_copy_permuted: 60,
 			p_zst_member: 0,
+			p_try_new_ref: 40,
 			p_own_member: 0,
 			max_members: 5,
 			allow_dups: false,
@@ -329,7 +332,9 @@ pub fn gen_world(src: &mut Src<'_>, cfg: &WorldCfg) -> WorldSpec {
 			}
 		}
 		let n = members.len();
-		let mut spec = CollSpec { kind, ctor: Ctor::TryNew, cont, content: Content::ByRef(members), pois };
+		// the checked constructor may be handed the list itself or a reference to it
+		let ctor = if kind != KindTag::Ref && !pois && src.chance(cfg.p_try_new_ref) { Ctor::TryNewRef } else { Ctor::TryNew };
+		let mut spec = CollSpec { kind, ctor, cont, content: Content::ByRef(members), pois };
 		let (lo, hi) = cont_limits(spec.cont);
 		if n < lo || n > hi {
 			spec.cont = Cont::Vec;
